@@ -632,6 +632,10 @@ P_CORPUS = [
   ('p_secure', P_PREF[0], 'pw1', 1), ('p_identify', P_PREF[1], 'alice', 'pw1'), ('p_tick', 5),
   ('p_hostrm', P_PREF[0], 'alice', '*!*@*.isp.example', 'pw1'), ('p_identify', P_PREF[1], 'alice', 'pw1'), ('p_tick', 70),
   ('p_whoami', P_PREF[1])],
+ # a name that looks like a hostmask is refused by changename as it is by register
+ [('reset', 0), ('p_register', P_PREF[0], 'alice', 'pw1'), ('p_changename', P_PREF[0], 'alice', 'x!y@z', 'pw1'),
+  ('p_register', P_PREF[2], 'bobby', 'pw2'), ('p_changename', P_PREF[2], 'bobby', 'x!y@z', 'pw2'), ('p_identify', P_PREF[3], 'alice', 'pw1'),
+  ('p_identify', P_PREF[3], 'x!y@z', 'pw1')],
  # Irc.doNick follows a login through a nick change: only the NICK sender's own login moves (seeded change C04-r2m3)
  [('reset', 0), ('p_follow', 1), ('p_register', P_PREF[0], 'alice', 'pw1'), ('p_tick', 1),
   ('p_identify', 'na!ux@cafe.example', 'alice', 'pw1'), ('p_tick', 1), ('p_identify', P_PREF[0], 'alice', 'pw1'),
@@ -762,6 +766,15 @@ def run_phistory(impl, r, n, kind, fixed=None):
                                                             for (i, t, h, o) in glog if live_now(t))) or '-')
         backed = set((i, t, h) for (i, t, h, o) in glog)
         # ---- the property on the implementation
+        seen_names = {}
+        for i, u in impl.U.users.items():
+            if not u.name: continue
+            if o_is_hostmask(u.name):
+                fail('command %d %r: account %d is now called %r, which is looked up as a hostmask: no command can address it by name any more'
+                     % (len(cmds) - 1, c, i, u.name))
+            if u.name.lower() in seen_names:
+                fail('command %d %r: accounts %d and %d are both called %r' % (len(cmds) - 1, c, seen_names[u.name.lower()], i, u.name))
+            seen_names[u.name.lower()] = i
         for i, u in impl.U.users.items():
             for (t, h) in impl.live_auth(u):
                 if (i, t, h) not in backed:
